@@ -307,7 +307,7 @@ theorem codeP_ok (tab : Nat) (refs : Refs) (parent : Node) (b : Str) (rest : Lis
     | none => exact ⟨rfl, fun hn c h => h.append hn (BInv.preCode _)⟩
     | some code => exact setCodeText_ok _ hl hp
 
-theorem firstDownFrom_some {α} (f : Nat → Option α) (lo : Nat) : ∀ c r, firstDownFrom f lo c = some r →
+theorem firstDownFrom_some_v {α} (f : Nat → Option α) (lo : Nat) : ∀ c r, firstDownFrom f lo c = some r →
     ∃ x, lo ≤ x ∧ x < lo + c ∧ f x = some r
   | 0, r, h => by simp [firstDownFrom] at h
   | c + 1, r, h => by
@@ -316,29 +316,29 @@ theorem firstDownFrom_some {α} (f : Nat → Option α) (lo : Nat) : ∀ c r, fi
     · rename_i r' hf
       injection h with h; subst h
       exact ⟨lo + c, by omega, by omega, hf⟩
-    · obtain ⟨x, h1, h2, h3⟩ := firstDownFrom_some f lo c r h
+    · obtain ⟨x, h1, h2, h3⟩ := firstDownFrom_some_v f lo c r h
       exact ⟨x, h1, by omega, h3⟩
 
-theorem firstDown_some {α} (f : Nat → Option α) (lo hi : Nat) (r : α) (h : firstDown f lo hi = some r) :
+theorem firstDown_some_v {α} (f : Nat → Option α) (lo hi : Nat) (r : α) (h : firstDown f lo hi = some r) :
     ∃ x, lo ≤ x ∧ x ≤ hi ∧ f x = some r := by
-  obtain ⟨x, h1, h2, h3⟩ := firstDownFrom_some f lo _ r h
+  obtain ⟨x, h1, h2, h3⟩ := firstDownFrom_some_v f lo _ r h
   exact ⟨x, h1, by omega, h3⟩
 
-theorem countPrefix_le (ch : Char) : ∀ (s : Str) (n : Nat), countPrefix ch (some n) s ≤ n
+theorem countPrefix_le_lim (ch : Char) : ∀ (s : Str) (n : Nat), countPrefix ch (some n) s ≤ n
   | [], n => by cases n <;> simp [countPrefix]
   | c :: s, 0 => by simp [countPrefix]
   | c :: s, n + 1 => by
     simp only [countPrefix]
     split
-    · have := countPrefix_le ch s n
+    · have := countPrefix_le_lim ch s n
       simp only [Option.map_some, Nat.add_sub_cancel]
       omega
     · omega
 
 theorem hashAt_level {s : Str} {lv : Nat} {hd : Str} {n : Nat} (h : hashAt s = some (lv, hd, n)) :
     1 ≤ lv ∧ lv ≤ 6 := by
-  obtain ⟨x, h1, h2, h3⟩ := firstDown_some _ _ _ _ h
-  have := countPrefix_le '#' s 6
+  obtain ⟨x, h1, h2, h3⟩ := firstDown_some_v _ _ _ _ h
+  have := countPrefix_le_lim '#' s 6
   split at h3
   · injection h3 with h3
     injection h3 with h3 _
@@ -970,7 +970,7 @@ theorem drop_countSp_head : ∀ (r : Str), ((r.drop (countSp r)).takeWhile notNl
         intro e; injection e with e; exact hc e
       · simp
 
-theorem listItemMatch_content {tab : Nat} {ol ul : Bool} {s m c : Str} (h : listItemMatch tab ol ul s = some (m, c)) :
+theorem listItemMatch_content_v {tab : Nat} {ol ul : Bool} {s m c : Str} (h : listItemMatch tab ol ul s = some (m, c)) :
     c.head? ≠ some ' ' := by
   simp only [listItemMatch] at h
   split at h
@@ -1060,7 +1060,7 @@ theorem getItems_good {tab : Nat} {ol ul : Bool} {b : Str} (h : (listItemMatch t
   | some mc =>
     obtain ⟨m, c⟩ := mc
     simp only [getItemsStep, hm, List.nil_append]
-    exact ⟨c, [], rfl, listItemMatch_content hm⟩
+    exact ⟨c, [], rfl, listItemMatch_content_v hm⟩
 
 theorem getItems_first {tab : Nat} (htab : 0 < tab) {ol ul : Bool} {b : Str}
     (h : (listItemMatch tab ol ul b).isSome = true) :
